@@ -508,6 +508,8 @@ def eval_small(e, env):
             if isinstance(e.op, ast.Sub) and isinstance(a, Vec):
                 return a - b
             raise Undecidable("vector operator")
+        if isinstance(a, bool) and isinstance(b, bool) and isinstance(e.op, (ast.BitOr, ast.BitAnd, ast.BitXor)):
+            return {ast.BitOr: a | b, ast.BitAnd: a & b, ast.BitXor: a ^ b}[type(e.op)]
         sets = isinstance(a, (set, frozenset)) and isinstance(b, (set, frozenset))
         nums = all(isinstance(x, (int, float)) and not isinstance(x, bool) for x in (a, b))
         try:
